@@ -16,6 +16,9 @@ pub struct Seed {
     pub extra_ids: Vec<u32>,
     pub len: usize,
     pub tombstones: usize,
+    /// the script itself does not produce a coherent cache on this tree:
+    /// (number of prefix operations that still did, what is wrong after the next)
+    pub broken: Option<(usize, String)>,
 }
 
 const F0: u16 = 100;
@@ -61,12 +64,49 @@ fn home_bucket(hk: HK, id: u32, buckets: usize) -> usize {
     (h.finish() as usize) & (buckets - 1)
 }
 
-fn finish_seed(u: &Universe, cfg: Config, mut prefix: Vec<Op>, removed: Vec<u32>, depth: usize, label: &str) -> Seed {
-    // observe the seed to derive the limit and the alphabet
+fn broken_seed(cfg: Config, prefix: Vec<Op>, label: &str, at: usize, why: String) -> Seed {
+    Seed {
+        root: Root { cfg, prefix, label: format!("{label}: script does not complete coherently, {}", cfg.show()) },
+        alpha: vec![],
+        depth: 0,
+        extra_ids: vec![],
+        len: 0,
+        tombstones: 0,
+        broken: Some((at, why)),
+    }
+}
+
+fn finish_seed(u: &Universe, cfg: Config, mut prefix: Vec<Op>, removed: Vec<u32>, depth: usize, label: &str, skip_reason: Option<String>) -> Seed {
+    if let Some(why) = skip_reason {
+        // building this seed killed or hung the engine in an earlier attempt
+        let n = prefix.len();
+        return broken_seed(cfg, prefix, label, n, why);
+    }
+    // the script must leave a coherent structure: validate before anything
+    // walks the list
     reg_reset();
+    crate::contain::mark(3, 0, &[], None);
     let ex = rebuild(u, &cfg, &prefix);
+    if let Err(why) = crate::state::walk(&ex.cr().verif_dump()) {
+        std::mem::forget(ex);
+        // find the first operation of the script after which the walker fails
+        reg_reset();
+        let mut ex = Exec::new(u, &cfg);
+        let mut at = prefix.len();
+        for (i, op) in prefix.iter().enumerate() {
+            let _ = apply_caught(&mut ex, *op);
+            if crate::state::walk(&ex.cr().verif_dump()).is_err() {
+                at = i;
+                break;
+            }
+        }
+        std::mem::forget(ex);
+        crate::contain::idle();
+        return broken_seed(cfg, prefix, label, at, why);
+    }
     let obs = observe(ex.cr(), usize::MAX);
     let dump = ex.cr().verif_dump();
+    crate::contain::idle();
     let tombstones = dump.ctrl.iter().filter(|c| **c == 0x80).count();
     drop(ex);
     let total = obs.sum(u.e);
@@ -155,11 +195,16 @@ fn finish_seed(u: &Universe, cfg: Config, mut prefix: Vec<Op>, removed: Vec<u32>
         extra_ids: removed.into_iter().take(24).collect(),
         len: n,
         tombstones,
+        broken: None,
     }
 }
 
-pub fn seeds(u: &Universe, thorough: bool, only_small: bool) -> Vec<Seed> {
-    let mut v = vec![];
+pub fn seeds(u: &Universe, thorough: bool, only_small: bool, skips: &[crate::contain::Skip]) -> Vec<Seed> {
+    let mut v: Vec<Seed> = vec![];
+    // a seed whose construction crashed / hung the engine before is not built again
+    let skip_for = |idx: usize| -> Option<String> {
+        skips.iter().find(|s| s.kind == 3 && s.phase == 10 + idx as u64).map(|s| s.reason.clone())
+    };
     let d = if thorough { 4 } else { 3 };
     // tombstone seeds: a 32-bucket table filled to (or one short of) its
     // capacity of 28, then thinned out from the middle of the insertion order.
@@ -175,7 +220,9 @@ pub fn seeds(u: &Universe, thorough: bool, only_small: bool) -> Vec<Seed> {
             let cfg = Config { hk, cap: Some(28), limit: usize::MAX };
             let from = live / 2;
             let (ops, removed) = script(fill, from..(from + fill - live), 4);
-            v.push(finish_seed(u, cfg, ops, removed, d, "tombstones"));
+            crate::contain::set_phase(10 + v.len() as u64);
+            let sk = skip_for(v.len());
+            v.push(finish_seed(u, cfg, ops, removed, d, "tombstones", sk));
         }
     }
     // one long collision chain among otherwise well-spread keys: under SameTag
@@ -186,25 +233,33 @@ pub fn seeds(u: &Universe, thorough: bool, only_small: bool) -> Vec<Seed> {
         let cfg = Config { hk: HK::SameTag, cap: Some(28), limit: usize::MAX };
         let from = live / 2;
         let (ops, removed) = script_ids(fill, from..(from + fill - live), 4, 128, 32);
-        v.push(finish_seed(u, cfg, ops, removed, d, "collision chain"));
+        crate::contain::set_phase(10 + v.len() as u64);
+            let sk = skip_for(v.len());
+            v.push(finish_seed(u, cfg, ops, removed, d, "collision chain", sk));
     }
     {
         let cfg = Config { hk: HK::Const, cap: Some(20), limit: usize::MAX };
         let (ops, removed) = script(24, 0..9, 4);
-        v.push(finish_seed(u, cfg, ops, removed, d, "tombstones (holes at the start of the probe sequence)"));
+        crate::contain::set_phase(10 + v.len() as u64);
+            let sk = skip_for(v.len());
+            v.push(finish_seed(u, cfg, ops, removed, d, "tombstones (holes at the start of the probe sequence)", sk));
     }
     // exactly full tables without tombstones: any fresh insertion grows the
     // table with live entries in it (3 keys cannot do that in the closure)
     for (hk, n) in [(HK::Const, 3usize), (HK::Spread, 3), (HK::Sip, 7), (HK::SameTag, 7), (HK::Const, 14), (HK::Spread, 14)] {
         let cfg = Config { hk, cap: None, limit: usize::MAX };
         let (ops, removed) = script(n, 0..0, 2);
-        v.push(finish_seed(u, cfg, ops, removed, d, "full table"));
+        crate::contain::set_phase(10 + v.len() as u64);
+            let sk = skip_for(v.len());
+            v.push(finish_seed(u, cfg, ops, removed, d, "full table", sk));
     }
     // list-shape seeds of lengths 5 and 8 (iterator patterns are exhaustive there)
     for (hk, n) in [(HK::Spread, 5usize), (HK::Sip, 8)] {
         let cfg = Config { hk, cap: None, limit: usize::MAX };
         let (ops, removed) = script(n, 0..0, 2);
-        v.push(finish_seed(u, cfg, ops, removed, d, "list-shape"));
+        crate::contain::set_phase(10 + v.len() as u64);
+            let sk = skip_for(v.len());
+            v.push(finish_seed(u, cfg, ops, removed, d, "list-shape", sk));
     }
     if only_small {
         return v;
@@ -221,7 +276,9 @@ pub fn seeds(u: &Universe, thorough: bool, only_small: bool) -> Vec<Seed> {
     for (hk, n, depth) in big {
         let cfg = Config { hk, cap: None, limit: usize::MAX };
         let (ops, removed) = script(n, (n / 3)..(n / 3 + n / 8), 3);
-        v.push(finish_seed(u, cfg, ops, removed, depth, "large"));
+        crate::contain::set_phase(10 + v.len() as u64);
+            let sk = skip_for(v.len());
+            v.push(finish_seed(u, cfg, ops, removed, depth, "large", sk));
     }
     v
 }
